@@ -600,6 +600,7 @@ static carquet_status_t read_page_header_fread(
 
 static carquet_status_t load_dictionary_page_mmap(
     carquet_column_reader_t* reader,
+    int64_t dict_offset,
     carquet_error_t* error) {
 
     carquet_reader_t* file_reader = reader->file_reader;
@@ -607,7 +608,6 @@ static carquet_status_t load_dictionary_page_mmap(
     const parquet_column_metadata_t* col_meta = reader->col_meta;
 
     /* Parse page header directly from mmap */
-    int64_t dict_offset = col_meta->dictionary_page_offset;
     if (dict_offset < 0 || (uint64_t)dict_offset >= (uint64_t)file_reader->file_size) {
         CARQUET_SET_ERROR(error, CARQUET_ERROR_INVALID_PAGE, "Dictionary page offset outside the file");
         return CARQUET_ERROR_INVALID_PAGE;
@@ -698,6 +698,7 @@ static carquet_status_t load_dictionary_page_mmap(
 
 static carquet_status_t load_dictionary_page_fread(
     carquet_column_reader_t* reader,
+    int64_t dict_offset,
     carquet_error_t* error) {
 
     carquet_reader_t* file_reader = reader->file_reader;
@@ -708,7 +709,7 @@ static carquet_status_t load_dictionary_page_fread(
     parquet_page_header_t page_header;
     size_t header_size;
     carquet_status_t status = read_page_header_fread(
-        file, col_meta->dictionary_page_offset, &page_header, &header_size, error);
+        file, dict_offset, &page_header, &header_size, error);
     if (status != CARQUET_OK) {
         return status;
     }
@@ -719,7 +720,7 @@ static carquet_status_t load_dictionary_page_fread(
     }
 
     /* Seek past header and read page data */
-    if (fseek(file, col_meta->dictionary_page_offset + (long)header_size, SEEK_SET) != 0) {
+    if (fseek(file, (long)dict_offset + (long)header_size, SEEK_SET) != 0) {
         CARQUET_SET_ERROR(error, CARQUET_ERROR_FILE_SEEK, "Failed to seek past dict header");
         return CARQUET_ERROR_FILE_SEEK;
     }
@@ -788,7 +789,7 @@ static carquet_status_t load_dictionary_page_fread(
      * dictionary-encoded columns. The reliable offset is always right
      * after the dictionary page: dict_offset + header + compressed data. */
     if (status == CARQUET_OK) {
-        reader->data_start_offset = col_meta->dictionary_page_offset +
+        reader->data_start_offset = dict_offset +
                                     (int64_t)header_size +
                                     page_header.compressed_page_size;
     }
@@ -817,7 +818,8 @@ static carquet_status_t load_next_page_mmap(
 
     /* Load dictionary if needed (may update data_start_offset) */
     if (col_meta->has_dictionary_page_offset && !reader->has_dictionary) {
-        carquet_status_t status = load_dictionary_page_mmap(reader, error);
+        carquet_status_t status = load_dictionary_page_mmap(
+            reader, col_meta->dictionary_page_offset, error);
         if (status != CARQUET_OK) {
             return status;
         }
@@ -839,6 +841,29 @@ static carquet_status_t load_next_page_mmap(
         &page_header, &header_size, error);
     if (status != CARQUET_OK) {
         return status;
+    }
+
+    /* Some writers leave dictionary_page_offset unset and let
+     * data_page_offset point at the dictionary page: the chunk then starts
+     * with the dictionary page, followed by the data pages. */
+    if (page_header.type == CARQUET_PAGE_DICTIONARY && !reader->has_dictionary &&
+        reader->current_page == 0) {
+        status = load_dictionary_page_mmap(reader, page_offset, error);
+        if (status != CARQUET_OK) {
+            return status;
+        }
+        page_offset = reader->data_start_offset;
+        if (page_offset < 0 || (uint64_t)page_offset >= (uint64_t)file_reader->file_size) {
+            CARQUET_SET_ERROR(error, CARQUET_ERROR_INVALID_PAGE, "Page offset outside the file");
+            return CARQUET_ERROR_INVALID_PAGE;
+        }
+        header_ptr = mmap_data + page_offset;
+        status = parquet_parse_page_header(
+            header_ptr, file_reader->file_size - (size_t)page_offset,
+            &page_header, &header_size, error);
+        if (status != CARQUET_OK) {
+            return status;
+        }
     }
 
     if (page_header.type != CARQUET_PAGE_DATA && page_header.type != CARQUET_PAGE_DATA_V2) {
@@ -1020,7 +1045,8 @@ static carquet_status_t load_next_page_fread(
 
     /* Load dictionary if needed (may update data_start_offset) */
     if (col_meta->has_dictionary_page_offset && !reader->has_dictionary) {
-        carquet_status_t status = load_dictionary_page_fread(reader, error);
+        carquet_status_t status = load_dictionary_page_fread(
+            reader, col_meta->dictionary_page_offset, error);
         if (status != CARQUET_OK) {
             return status;
         }
@@ -1034,6 +1060,23 @@ static carquet_status_t load_next_page_fread(
         file, data_offset + reader->current_page, &page_header, &header_size, error);
     if (status != CARQUET_OK) {
         return status;
+    }
+
+    /* Some writers leave dictionary_page_offset unset and let
+     * data_page_offset point at the dictionary page: the chunk then starts
+     * with the dictionary page, followed by the data pages. */
+    if (page_header.type == CARQUET_PAGE_DICTIONARY && !reader->has_dictionary &&
+        reader->current_page == 0) {
+        status = load_dictionary_page_fread(reader, data_offset, error);
+        if (status != CARQUET_OK) {
+            return status;
+        }
+        data_offset = reader->data_start_offset;
+        status = read_page_header_fread(
+            file, data_offset, &page_header, &header_size, error);
+        if (status != CARQUET_OK) {
+            return status;
+        }
     }
 
     if (page_header.type != CARQUET_PAGE_DATA && page_header.type != CARQUET_PAGE_DATA_V2) {
